@@ -28,6 +28,7 @@ import (
 	"mime"
 	"mime/multipart"
 	"net/http"
+	"net/http/httputil"
 	"net/url"
 	"strings"
 	"sync"
@@ -765,9 +766,16 @@ func postData(req *http.Request, logBody bool) (*PostData, error) {
 		return nil, err
 	}
 
-	br, err := mv.BodyReader()
+	mbr, err := mv.BodyReader()
 	if err != nil {
 		return nil, err
+	}
+
+	// The snapshot keeps the transfer coding of the message; the post data is
+	// the body itself, without chunk framing.
+	var br io.Reader = mbr
+	if te := req.TransferEncoding; len(te) > 0 && te[len(te)-1] == "chunked" {
+		br = httputil.NewChunkedReader(mbr)
 	}
 
 	switch mt {
